@@ -371,6 +371,10 @@ def write_evidence(pid, tier, seed, level, coverage, assumptions, wall, violatio
     return path
 
 
+# VERIF_FAST_FAIL=1: verdict only (used by tools/seed_matrix.sh) - failures are neither shrunk nor searched behind
+FAST_FAIL = os.environ.get("VERIF_FAST_FAIL") == "1"
+
+
 def check_property(pid, tier, seed, only_facets=None, procs=16, max_rounds=4):
     """Run every facet of a property; returns exit code."""
     t0 = time.time()
@@ -429,7 +433,7 @@ def check_property(pid, tier, seed, only_facets=None, procs=16, max_rounds=4):
                 ns = f.shards[tier]
                 for s in range(ns):
                     jobs.append(
-                        (pid, f.name, tier, seed, s, ns, sorted(suppressed[f.name]), True)
+                        (pid, f.name, tier, seed, s, ns, sorted(suppressed[f.name]), not FAST_FAIL)
                     )
             results = pool.map(run_shard, jobs, chunksize=1)
             todo = []
@@ -472,8 +476,9 @@ def check_property(pid, tier, seed, only_facets=None, procs=16, max_rounds=4):
                         violations.append((b, fl["message"], path))
                         suppressed[fname].add(b)
                     rounds[fname] += 1
-                    todo.append(f)  # search on behind the buckets found so far
-                    continue
+                    if not FAST_FAIL:  # (fast mode: verdict only, no second round behind the buckets found)
+                        todo.append(f)  # search on behind the buckets found so far
+                        continue
                 elif new_fail:
                     for b, fl in new_fail.items():
                         violations.append((b, fl["message"], "(round limit reached)"))
